@@ -15,7 +15,8 @@ Record server := mkSrv { s_id : Z; s_cust : Z; s_busy : bool; s_off : bool }.
 Record nodest := mkNode { n_id : Z; n_c : Z; n_srv : list server; n_cust : list (Z * Z); n_det : list Z }.
 Definition frame := list nodest.
 Record srec := mkRec { r_node : Z; r_sid : Z; r_start : Z; r_exit : Z }.
-Record sfin := mkFin { f_sid : Z; f_start : Z; f_busy : Z; f_total : Z; f_partial : Z }.
+Record sfin := mkFin { f_sid : Z; f_start : Z; f_busy : Z; f_total : Z; f_partial : Z;
+  f_end : Z   (* when the server's clock stopped: the end of the run, or the instant it went off duty for good *) }.
 Record nfin := mkNFin { nf_node : Z; nf_T : Z; nf_srv : list sfin; nf_busy_sum : Z; nf_total_sum : Z }.
 
 Definition decode_srv (s : sx) : option server :=
@@ -32,7 +33,7 @@ Definition decode_frame (s : sx) : option frame := do l <- getL s; omap decode_n
 Definition decode_rec (s : sx) : option srec :=
   match s with L [A n; A i; A a; A b] => Some (mkRec n i a b) | _ => None end.
 Definition decode_sfin (s : sx) : option sfin :=
-  match s with L [A i; A st; A b; A t; A p] => Some (mkFin i st b t p) | _ => None end.
+  match s with L [A i; A st; A b; A t; A p; A e] => Some (mkFin i st b t p e) | _ => None end.
 Definition decode_nfin (s : sx) : option nfin :=
   match s with
   | L [A n; A t; sv; A bs; A ts] => do sl <- getL sv; do sv' <- omap decode_sfin sl; Some (mkNFin n t sv' bs ts)
@@ -101,9 +102,9 @@ Definition sum_len (l : list srec) : Z := zsum (map (fun r => r_exit r - r_start
 Definition sfin_ok (n T : Z) (recs : list srec) (s : sfin) : bool :=
   let mine := recs_of n (f_sid s) recs in
   (f_busy s =? sum_len mine + f_partial s)             (* busy time = time attached to customers *)
-  && (f_total s =? T - f_start s)
-  && (0 <=? f_partial s) && (f_start s <=? T - f_partial s)
-  && forallb (fun r => (f_start s <=? r_start r) && (r_exit r <=? T - f_partial s)) mine.
+  && ((f_total s =? f_end s - f_start s) && (f_end s <=? T))
+  && (0 <=? f_partial s) && (f_start s <=? f_end s - f_partial s)
+  && forallb (fun r => (f_start s <=? r_start r) && (r_exit r <=? f_end s - f_partial s)) mine.
 
 Definition nfin_ok (recs : list srec) (n : nfin) : bool :=
   forallb (sfin_ok (nf_node n) (nf_T n) recs) (nf_srv n)
@@ -223,7 +224,7 @@ Proof.
   intros Hr Hs. unfold sfin_ok in Hs.
   apply andb_true_iff in Hs as [Hs H5]. apply andb_true_iff in Hs as [Hs H4].
   apply andb_true_iff in Hs as [Hs H3]. apply andb_true_iff in Hs as [H1 H2].
-  apply Z.eqb_eq in H1, H2. apply Z.leb_le in H3, H4. rewrite forallb_forall in H5.
+  apply andb_true_iff in H2 as [H2 H2e]. apply Z.eqb_eq in H1, H2. apply Z.leb_le in H3, H4, H2e. rewrite forallb_forall in H5.
   destruct (recs_ok_pairwise _ _ Hr) as (P1 & _ & P3).
   set (mine := recs_of n (f_sid s) recs) in *.
   assert (Hmine : forall r, In r mine -> In r recs /\ key r = (n, f_sid s)).
@@ -235,7 +236,7 @@ Proof.
     assert (0 <= fold_right Z.add 0 (map (fun r0 => r_exit r0 - r_start r0) q))
       by (apply IH; intros; apply Hmine; right; assumption).
     lia. }
-  assert (Hpack : sum_len mine <= (T - f_partial s) - f_start s).
+  assert (Hpack : sum_len mine <= (f_end s - f_partial s) - f_start s).
   { apply packing; [| |lia].
     - intros r Hin. specialize (H5 r Hin). apply andb_true_iff in H5 as [A B].
       apply Z.leb_le in A, B. destruct (Hmine r Hin) as [Hin' _]. specialize (P1 r Hin'). lia.
@@ -334,7 +335,7 @@ Example acc_example :
       [mkNode 1 2 [mkSrv 1 5 true false; mkSrv 2 6 true false] [(5,1);(6,2)] []];
       [mkNode 1 2 [mkSrv 1 0 false false; mkSrv 2 6 true false] [(6,2)] [5]] ]
     [mkRec 1 1 2 9]
-    [mkNFin 1 20 [mkFin 1 0 7 20 0; mkFin 2 0 16 20 16] 23 40]) = true.
+    [mkNFin 1 20 [mkFin 1 0 7 20 0 20; mkFin 2 0 16 20 16 20] 23 40]) = true.
 Proof. vm_compute. reflexivity. Qed.
 Example rej_overlap :
   acc [[mkNode 1 1 [mkSrv 1 0 false false] [] []]] [mkRec 1 1 2 9; mkRec 1 1 8 12] [] = Reject 1 32 [].
